@@ -174,6 +174,7 @@ pub open spec fn group_counts(gs: Seq<&Grouping>) -> Seq<usize> { gs.map(|b: int
 //@rule R4
 //@rule R6_sparse(group_lengths)
 //@rule R1
+#[verifier::loop_isolation(false)]
 pub fn token_groups_to_sparse_coo_matrix(
     groupings: &[&Grouping],
     lengths: &[usize],
